@@ -469,3 +469,31 @@ PROPS["C08"] = {
                     "truncation theorem (meta-level): a reader that returns normally consumed exactly the image length through read_binary<T> calls, so on a proper prefix some read_binary<T> sees a short stream and throws, and rule R14 propagates it"],
     "not_covered": ["count words above 2^32 elements (allocation failure / memory exhaustion)", "layer readers other than the array backend are covered by C06's framing cells"],
 }
+
+
+# ------------------------------------------------------------------ C12
+def cells_C12(tier, consts):
+    cells = []
+    combos = [(3, "float")] if tier == "quick" else [(1, "float"), (3, "float"), (3, "double")]
+    for m, t in combos:
+        d = {"DIMS_OUT": m, "OUT_SCALAR_T": t}
+        for fl in ("debug", "ndebug"):
+            for h, f in (("copy_assign_distinct", "array_copy_assign"), ("copy_assign_self", "array_copy_assign"), ("copy_ctor", "array_copy_ctor")):
+                cells.append(Cell("own.%s.M%d.%s.%s" % (h, m, t, fl), "array_own", "h_array_%s" % h, defines=d, flavour=fl, enforce=f,
+                                  extra_checks=["--memory-leak-check", "--unsigned-overflow-check"], object_bits=10,
+                                  backends=(("sat", 600), ("cadical", 600)), closes_loops="loop-free (memcpy is CBMC's array copy)",
+                                  note="element count symbolic up to 2^32, ghost element index", replay="array_own"))
+    return cells
+
+
+PROPS["C12"] = {
+    "level_text": "the hand-written ownership operations of the array backend (copy constructor, copy assignment incl. self-assignment) proved to preserve the representation invariant and the plain-array model for all sizes, contents and aliasings: returns *this, target equals source element-wise, source unchanged, storage not shared, no leak / double free / use after free; by induction over operations this covers every history of those operations",
+    "level_note": "defaulted and implicit special members (moves, wrapper layers, field) are assumed to act member-wise as the standard says; std::unique_ptr/make_unique modelled by heap stubs; conversions and dump/load are C05/C06",
+    "design_ref": "DESIGN.md section 5 (C12)",
+    "cells": cells_C12, "consts": False,
+    "explanation": "representation invariant + abstract view preserved by every hand-written ownership operation",
+    "trusted_base": ["heap stubs for std::unique_ptr<T[]> / std::make_unique<T[]> (contracts/array_own.h)", "CBMC's memcpy / malloc / free models and --memory-leak-check"],
+    "assumptions": ["= default / implicit special members copy and move member-wise; unique_ptr move leaves the source null"],
+    "not_covered": ["histories are not explored; the claim is per-operation preservation of the invariant and model",
+                    "allocation failure (std::bad_alloc) paths"],
+}
